@@ -186,4 +186,70 @@ PROPS = {
         ],
         "trusted_base": ["rayon; Rust's aliasing rules for par_iter_mut"],
     },
+    "C01": {
+        "harness_cmd": ["steps", "c09", "thermal --only C01"],
+        "oracle_props": ["C01"],
+        "property_files": ["C01.v"],
+        "expected_theorems": ["C01_two_site_elements", "C01_transverse_elements", "C01_longitudinal_elements", "C01_weight_fill_ratio",
+                              "C01_metropolis_slot_reversible", "C01_slot_stationary_empty", "C01_slot_stationary_bond",
+                              "C01_cluster_flip_keeps_weight", "C01_cluster_flip_reversible", "C01_broken_cluster_never_flips",
+                              "C01_reversible_is_stationary", "C01_sweep_stationary", "C01_offset_accounting"],
+        "assumptions": [
+            "PARTIAL: proved are (i) the matrix elements, (ii) reversibility of every elementary move of the default pipeline w.r.t. the SSE configuration weight, (iii) that reversible stochastic kernels are stationary and that sweeps of stationary kernels are stationary. "
+            "Not proved in Coq: the identification of the concrete sweep programs with finite indexed kernels, ergodicity, and the estimator identities <n_b> = beta <H_b>, E = offset - <n>/beta (Sandvik's SSE derivation); these are covered by the exact-diagonalisation oracle",
+            "cluster-flip weight preservation holds for labellings accepted by the executable validator, evaluated on every correspondence case (C09)",
+        ],
+        "trusted_base": ["Model/Steps.v transcription of QmcIsingGraph::timestep validated by whole-call raw-tape replay",
+                         "exact diagonalisation oracle (harness/src/thermal.rs: dense expm by scaling and squaring, f64)"],
+    },
+    "C02": {
+        "harness_cmd": ["c08", "steps", "thermal --only C02"],
+        "oracle_props": ["C02"],
+        "property_files": ["C02.v"],
+        "expected_theorems": ["C02_heatbath_slot_reversible", "C02_same_ratio_as_metropolis", "C02_table_length", "C02_table_entry",
+                              "C02_weight_le_maxweight", "C02_all_substates_scanned", "C02_offdiag_untouched"],
+        "assumptions": [
+            "PARTIAL as C01: slot-level reversibility of the heat-bath program w.r.t. the same configuration weight is proved for every weight table; convergence of the whole chain is covered by the exact-diagonalisation oracle",
+            "table invalidation when interactions change is exercised through the generic histories (heat bath switched on before / after adding interactions) only",
+        ],
+        "trusted_base": ["Model/Diagonal.v transcription of heatbath.rs (bond-weight table, cumulative choice, rejection) validated by raw-tape replay and threshold bisection (c08)",
+                         "exact diagonalisation oracle"],
+    },
+    "C03": {
+        "harness_cmd": ["rvb", "thermal --only C03"],
+        "oracle_props": ["C03"],
+        "property_files": ["C03.v"],
+        "expected_theorems": ["C03_rotation_balance", "C03_zero_ratio_never_accepted", "C03_acceptance_is_probability", "C03_composes"],
+        "assumptions": [
+            "PARTIAL: rvb.rs (region search, boundary tracking, graph rewrite) is NOT transcribed into Gallina. The theorems are about the abstract move (flip a region, re-draw the n rotatable boundary operators among boundary bonds in proportion to their weight after the flip, accept with min(1,(W_after/W_before)^n)) and show that this acceptance balances the configuration weight. "
+            "That the implementation realises this move and leaves the thermal distribution invariant is decided by implementation-side oracles only: exact diagonalisation on frustrated / multi-edge / h != 0 models with automatic and explicit RVB, and structural checks after every RVB call",
+        ],
+        "trusted_base": ["exact diagonalisation oracle", "naive world-line / legality / bookkeeping checkers (harness/src/rvb.rs)"],
+    },
+    "C04": {
+        "harness_cmd": ["steps", "thermal --only C04"],
+        "oracle_props": ["C04"],
+        "property_files": ["C04.v"],
+        "expected_theorems": ["C04_vertex_balance", "C04_exit_weight_is_new_weight", "C04_reverse_total", "C04_bounce_unchanged",
+                              "C04_metropolis_slot_reversible", "C04_cluster_gate", "C04_symmetry_meaning", "C04_weights_nonneg",
+                              "C04_loop_keeps_leg_parity", "C04_diagonal_ops_even"],
+        "assumptions": [
+            "PARTIAL: vertex-level detailed balance of the directed loop (for every Hamiltonian, arity and leg pair), slot-level reversibility of the diagonal update and the cluster gate are proved; closure of a loop into a consistent configuration is decided by the world-line checker plus the bit-exact loop correspondence (C06); convergence by exact diagonalisation",
+            "KNOWN FINDING odd-parity: interaction sets whose only spin-flip elements have odd leg parity (single-site matrices that are not constant, e.g. [2,1,1,0.5]) are accepted but not sampled ergodically (C04_loop_keeps_leg_parity explains why)",
+        ],
+        "trusted_base": ["Model/Loop.v, Model/Steps.v transcriptions validated by whole-call raw-tape replay", "exact diagonalisation oracle"],
+    },
+    "C05": {
+        "harness_cmd": ["c10", "thermal --only C05"],
+        "oracle_props": ["C05"],
+        "property_files": ["C05.v"],
+        "expected_theorems": ["C05_exchange_balance", "C05_exchange_balance_in_ladder", "C05_pair_swap_probability", "C05_swap_moves_only_configuration",
+                              "C05_beta_factor", "C05_shared_cutoff", "C05_sweep_stationary", "C05_relative_weight_is_weight_ratio",
+                              "C05_p_swap_is_weight_ratio", "C05_p_swap_is_weight_ratio_checked"],
+        "assumptions": [
+            "the swap-ratio theorem needs replicas on the same graph with couplings (and fields) of pairwise equal sign and stored operators legal for their own model; its executable premise swap_hyps is evaluated on every probed pair of the correspondence runs",
+            "PARTIAL: per-replica stationarity between exchanges is C01-C03; the thread-parallel driver is tied to the serial one by C13; ergodicity / convergence of each rung is decided by the exact-diagonalisation oracle on ladders of 2-5 replicas",
+        ],
+        "trusted_base": ["Model/Tempering.v transcription validated by raw-tape replay of tempering steps and threshold bisection (c10)", "exact diagonalisation oracle"],
+    },
 }
